@@ -48,6 +48,9 @@ INPUTS_SMALL = {
     # two models that share 60 % of their keys: merged under percent_50, kept apart under exact / the default
     "sim60": [{"p1": {"fa": 1, "fb": 2, "fc": 3, "fd": 4}, "p2": {"fa": 1, "fb": 2, "fc": 3, "fe": 5}, "n": 1}],
     "sim60b": [{"q1": {"ga": 1, "gb": 2, "gc": 3, "gd": 4}, "q2": {"ga": 1, "gb": 2, "gc": 3, "ge": 5}, "m": "x"}],
+    "fresh_a": [{"tags": ["alpha", "beta", "gamma", "delta", "7", "true"], "n": "12"}],
+    "fresh_b": [{"tags": ["one", "two", "three", "four", "2.5", "false"], "m": "3"}],
+    "shape": [{"uid": 1, "title": "t", "address": {"city": "c", "zip": "z"}}],
     "poly2": [{"o1": {"no": 1, "state": "a", "at": 1, "payload": {"u": 1.5, "v": 2}}, "o2": {"no": 2, "state": "b", "at": 2, "payload": {"r": "s", "s": [1]}}}],
 }
 INPUTS = INPUTS_SMALL
@@ -68,6 +71,12 @@ BODIES = {
     # CLI objects with different --merge policies (each Cli object must keep its own parsed arguments)
     "T16": ("sim60", "pydantic", "flat", {"argv": ["--merge", "exact"]}, "cli"),
     "T17": ("sim60b", "dataclasses", "flat", {"argv": ["--merge", "percent_50"]}, "cli"),
+    # a handful of NEW distinct strings through the process-default registry (after a prefill of several hundred others, see plans)
+    "T18": ("fresh_a", "pydantic", "flat", {}, "defreg"),
+    "T19": ("fresh_b", "dataclasses", "flat", {}, "defreg"),
+    # the same record shape under different model names (equal model indexes, equal field types, different names)
+    "T20": ("shape", "pydantic", "flat", {"root": "Customer"}),
+    "T21": ("shape", "pydantic", "flat", {"root": "Supplier"}),
     "T12": ("poly", "pydantic", "flat", {}),
     "T13": ("poly2", "dataclasses", "flat", {}),
     # the CLI's YAML loader (a module-level parser object of a third-party package): for these two bodies the frames of that package
@@ -80,6 +89,11 @@ BODIES = {
 YAML_DOCS = {"yaml_a": "a: 1\nb: [x, 2]\nc: {d: e}\n", "yaml_b": "- p: q\n  r: [1.5]\n- p: z\n"}
 _SOLO = {}
 _WARM = {}
+
+
+def _gen_kw(kw):
+    """generator kwargs of a body (harness-only entries removed)"""
+    return {k: v for k, v in kw.items() if k not in ("root", "argv")}
 
 
 def _mode(name):
@@ -97,7 +111,7 @@ def _build(name):
         reg.merge_models(gen)
         reg.generate_names()
         return reg
-    return pipeline.build(copy.deepcopy(INPUTS[inp]), types=pipeline.DEFAULT_TYPES).reg
+    return pipeline.build(copy.deepcopy(INPUTS[inp]), types=pipeline.DEFAULT_TYPES, root_name=BODIES[name][3].get("root", "Root")).reg
 
 
 def _cli_body(name, workdir):
@@ -135,8 +149,8 @@ def _body(name, reg, whole, workdir=None):
     if _mode(name) == "yaml":
         return _yaml_body(name, workdir)
     if whole or _mode(name) == "defreg":
-        return lambda: pipeline.render(_build(name), fw, layout, **kw)
-    return lambda: pipeline.render(reg, fw, layout, **kw)
+        return lambda: pipeline.render(_build(name), fw, layout, **_gen_kw(kw))
+    return lambda: pipeline.render(reg, fw, layout, **_gen_kw(kw))
 
 
 def _in_fork(fn):
@@ -174,7 +188,7 @@ def solo(name, warm=()):
     if key not in _SOLO:
         fw, layout, kw = BODIES[name][1:4]
         if _mode(name) == "explicit" and not warm:
-            _SOLO[key] = pipeline.render(_build(name), fw, layout, **kw)
+            _SOLO[key] = pipeline.render(_build(name), fw, layout, **_gen_kw(kw))
         else:
             def alone():
                 import tempfile, shutil
@@ -213,6 +227,11 @@ def execute(case):
         workdir = tempfile.mkdtemp(prefix="c15_")
     regs = [None if (whole or _mode(n) != "explicit") else _build(n) for n in names]
     bodies = [_body(n, r, whole, workdir) for n, r in zip(names, regs)]
+    if case.get("prefill"):
+        # a process that has already classified many distinct strings through the default registry (size-bounded memos are full)
+        from json_to_models.generator import MetadataGenerator
+        for lo in range(0, case["prefill"], 100):
+            MetadataGenerator().generate({"s": [f"p{i:04d}x" for i in range(lo, min(lo + 100, case["prefill"]))]})
     if case.get("warm"):
         # start from a non-initial state: every body has already run once, sequentially, in this (forked) process
         for n in names:
@@ -220,14 +239,24 @@ def execute(case):
     marks = (sched.MARK,) + tuple(os.sep + m + os.sep for m in case.get("marks", ()))
     ex = sched.Execution(bodies, case["schedule"], first=case.get("first", 0), granularity=case["gran"],
                          record_tail=bool(case.get("tail", True)), marks=marks)
+    diverged = None
     try:
-        ex.run()
+        try:
+            ex.run()
+        except sched.Divergence as e:
+            # All threads have finished but a scheduled preemption could not be honoured: the step count of a thread is not the one the
+            # parent execution recorded, i.e. the code took another path under the same schedule prefix (possible only if something other
+            # than the schedule influences it, e.g. garbage-collection timing). The outputs of THIS execution are still judged below;
+            # the schedule subtree below it is not expanded. A watchdog timeout is a real harness problem and is re-raised.
+            if "watchdog" in str(e):
+                raise
+            diverged = str(e)
     finally:
         if workdir:
             import shutil
             shutil.rmtree(workdir, ignore_errors=True)
     viol = []
-    shape = sorted(names) + [f"preemptions:{len(case['schedule'])}"] + (["warm"] if case.get("warm") else [])
+    shape = sorted(names) + [f"preemptions:{len(case['schedule'])}"] + (["warm"] if case.get("warm") else []) + (["prefilled"] if case.get("prefill") else [])
     outs = []
     solos = case.get("_solo")
     if solos is None:
@@ -246,8 +275,10 @@ def execute(case):
             outs.append("diff")
         else:
             outs.append("ok")
+    if diverged:
+        outs.append("diverged")
     return {"obs": ["/".join(outs)], "viol": viol, "execs": 1, "trans": sum(ex.steps), "outcome": "/".join(outs),
-            "show": f"{names} schedule={case['schedule']} steps={ex.steps}", "tail": ex.tail if case.get("tail", True) else None,
+            "show": f"{names} schedule={case['schedule']} steps={ex.steps}", "tail": (ex.tail if case.get("tail", True) and not diverged else None),
             "steps": ex.steps, "nontrivial": core.digest([names, case["schedule"], case.get("first", 0)]) if case["schedule"] else None}
 
 
@@ -341,6 +372,10 @@ def run(tier, seed):
         plans.append({"threads": ["T5", "T6"], "gran": "line", "bound": 1, "whole": True})
         plans.append({"threads": ["T4", "T2"], "gran": "line", "bound": 1, "whole": False})
         plans.append({"threads": ["T14", "T15"], "gran": "call", "bound": 1, "whole": True, "marks": ["ruamel"]})
+        for fill in (510, 1020):
+            plans.append({"threads": ["T18", "T19"], "gran": "line", "bound": 1, "whole": True, "prefill": fill})
+        plans.append({"threads": ["T20", "T21"], "gran": "call", "bound": 1, "whole": True})
+        plans.append({"threads": ["T20", "T21"], "gran": "call", "bound": 2, "whole": False})
         plans.append({"threads": ["T16", "T17"], "gran": "call", "bound": 1, "whole": True})
         plans.append({"threads": ["T16", "T17"], "gran": "line", "bound": 1, "whole": True})
         # merges whose decision compares nested models deeply (ModelMeta.__eq__ / merge_field_sets) in both threads at once
@@ -406,8 +441,8 @@ def run(tier, seed):
     completed = {}
     for plan in plans:
         level = [{"k": "sched", "threads": plan["threads"], "gran": plan["gran"], "whole": plan["whole"], "schedule": [], "first": f,
-                  "tail": plan["bound"] > 0, "warm": bool(plan.get("warm")), "marks": plan.get("marks", [])} for f in range(len(plan["threads"]))]
-        key = f"{'+'.join(plan['threads'])}:{plan['gran']}{':whole' if plan['whole'] else ''}{':warm' if plan.get('warm') else ''}"
+                  "tail": plan["bound"] > 0, "warm": bool(plan.get("warm")), "marks": plan.get("marks", []), "prefill": plan.get("prefill", 0)} for f in range(len(plan["threads"]))]
+        key = f"{'+'.join(plan['threads'])}:{plan['gran']}{':whole' if plan['whole'] else ''}{':warm' if plan.get('warm') else ''}{':prefill%d' % plan['prefill'] if plan.get('prefill') else ''}"
         for depth in range(plan["bound"] + 1):
             nxt = []
             want_tail = depth < plan["bound"]
@@ -446,7 +481,11 @@ def run(tier, seed):
         sa = sorted((v["clause"], v["site"]) for v in a["viol"])
         sb = sorted((v["clause"], v["site"]) for v in b["viol"])
         if c["k"] == "sched" and sa != sb:
-            raise core.HarnessError(f"schedule replay is not deterministic: {sa} vs {sb}")
+            # the scheduler is deterministic; two replays of one schedule that disagree mean that the library's result depends on
+            # something else that outlives a run (garbage-collection timing of a weak table, allocator state): the failing replay stands
+            r.extra["schedule_replays_that_disagree"] = r.extra.get("schedule_replays_that_disagree", 0) + 1
+            if not a["viol"]:
+                a = b
         a.pop("tail", None)
         a.pop("steps", None)
         return a
